@@ -82,7 +82,10 @@ class ParameterParser(Logger):
 
             try:
 
-                extension_paths = config['Global']['extension_paths']
+                if 'extension_paths' in config['Global']:
+                    extension_paths = config['Global']['extension_paths']
+                else:
+                    extension_paths = config['Global']['extension_path']
                 if isinstance(extension_paths, str):
                     extension_paths = [extension_paths, ]
 
